@@ -30,11 +30,74 @@ fn to_json(v: &[Necessity<i64>]) -> Value {
 }
 
 /// spec -> impl: every line {vec, other, merged}; the real merge must return `merged`
+/// C15 is stated for any item type that can be compared: the same pair of lists merged as lists of `&str` that borrow from
+/// two different owners, of `String`, of `f64`, of `(u8, bool)` and of a type with its own `PartialEq` must give the
+/// result of the `i64` lists, item by item. Returns a description of the first type that does not.
+fn other_item_types(vec: &[Necessity<i64>], other: &[Necessity<i64>], expect: &[Necessity<i64>]) -> Option<String> {
+    fn conv<T, U>(l: &[Necessity<T>], mut f: impl FnMut(&T) -> U) -> Vec<Necessity<U>> {
+        l.iter().map(|x| match x { Necessity::Mandatory(v) => Necessity::Mandatory(f(v)), Necessity::Optional(v) => Necessity::Optional(f(v)) }).collect()
+    }
+    fn same<T, U: PartialEq>(got: &[Necessity<U>], expect: &[Necessity<T>], f: impl Fn(&T) -> U) -> bool {
+        got.len() == expect.len() && got.iter().zip(expect).all(|(g, e)| match (g, e) {
+            (Necessity::Mandatory(a), Necessity::Mandatory(b)) | (Necessity::Optional(a), Necessity::Optional(b)) => *a == f(b),
+            _ => false,
+        })
+    }
+    // &str: every list has its own backing strings, so equal words live at different addresses
+    let names = |l: &[Necessity<i64>]| -> Vec<String> { l.iter().map(|x| format!("w{}", x.inner_t())).collect() };
+    let (own_a, own_b) = (names(vec), names(other));
+    let mut ia = own_a.iter();
+    let mut ib = own_b.iter();
+    let sa: Vec<Necessity<&str>> = conv(vec, |_| ia.next().unwrap().as_str());
+    let sb: Vec<Necessity<&str>> = conv(other, |_| ib.next().unwrap().as_str());
+    let r = std::panic::catch_unwind(std::panic::AssertUnwindSafe(|| merge_necessity(sa, sb)));
+    match r {
+        Ok(m) => {
+            let flat: Vec<Necessity<String>> = conv(&m, |s| s.to_string());
+            if !same(&flat, expect, |v| format!("w{}", v)) {
+                return Some("&str borrowed from two owners".into());
+            }
+        }
+        Err(_) => return Some("&str (panic)".into()),
+    }
+    let m = merge_necessity(conv(vec, |v| format!("w{}", v)), conv(other, |v| format!("w{}", v)));
+    if !same(&m, expect, |v| format!("w{}", v)) {
+        return Some("String".into());
+    }
+    // f64: the value 0 is written 0.0 in one list and -0.0 in the other (equal, not the same bytes)
+    let m = merge_necessity(conv(vec, |v| *v as f64), conv(other, |v| if *v == 0 { -0.0 } else { *v as f64 }));
+    if !same(&m, expect, |v| *v as f64) {
+        return Some("f64 (0.0 / -0.0)".into());
+    }
+    let m = merge_necessity(conv(vec, |v| (*v as u8, *v % 2 == 0)), conv(other, |v| (*v as u8, *v % 2 == 0)));
+    if vec.iter().chain(other.iter()).all(|x| (0..256).contains(x.inner_t())) && !same(&m, expect, |v| (*v as u8, *v % 2 == 0)) {
+        return Some("(u8, bool)".into());
+    }
+    // a type whose equality ignores part of its representation
+    #[derive(Clone, Debug)]
+    struct Tagged(i64, u64);
+    impl PartialEq for Tagged {
+        fn eq(&self, o: &Tagged) -> bool { self.0 == o.0 }
+    }
+    let m = merge_necessity(conv(vec, |v| Tagged(*v, 1)), conv(other, |v| Tagged(*v, 2)));
+    if !same(&m, expect, |v| Tagged(*v, 0)) {
+        return Some("a type whose PartialEq ignores a field".into());
+    }
+    None
+}
+
 pub fn replay(a: &Args) {
     let cases = read_lines(&a.req("cases"));
     let mut mismatches = Vec::new();
     for c in &cases {
-        let actual = to_json(&merge_necessity(items(&c["vec"]), items(&c["other"])));
+        let merged = merge_necessity(items(&c["vec"]), items(&c["other"]));
+        if to_json(&merged) == c["merged"] {
+            if let Some(ty) = other_item_types(&items(&c["vec"]), &items(&c["other"]), &merged) {
+                mismatches.push(json!({"kind": "merge", "vec": c["vec"], "other": c["other"], "expected": c["merged"],
+                    "actual": c["merged"], "item_type": ty}));
+            }
+        }
+        let actual = to_json(&merged);
         if actual != c["merged"] {
             mismatches.push(json!({"kind": "merge", "vec": c["vec"], "other": c["other"],
                 "expected": c["merged"], "actual": actual}));
